@@ -42,6 +42,14 @@ ProbOK(G, r, o) == \A t \in Rng(o.prob) :
         /\ REq(<<t[4], t[5]>>, <<u[5] * v[5], u[6] * v[4]>>)
 DevProbAbove1(G, r, o) == \E t \in Rng(o.prob) : t[3] = "ok" /\ t[4] > t[5]
 
+\* load(): <<fi, st, keys, tot <<pos, st, num, den>>, w <<pos, synset, st, num, den>>>>
+LoadOK(G, r, t) ==
+  LET rows == r.g.icfiles[t.fi + 1].rows IN
+  /\ t.st = "ok" /\ Rng(t.keys) = IcPos
+  /\ \A u \in Rng(t.tot) : u[2] = "ok" /\ REq(<<u[3], u[4]>>, <<LoadTotal(G, rows, u[1]), 1>>)
+  /\ \A pos \in IcPos : {u[2] : u \in {u \in Rng(t.w) : u[1] = pos}}
+                             = {x \in Nodes(G) : FoldPos(G.pos[x]) = pos}
+  /\ \A u \in Rng(t.w) : u[3] = "ok" /\ REq(<<u[4], u[5]>>, <<LoadWeight(G, rows, u[1], u[2]), 1>>)
 Cl(ok, name) == IF ok THEN {} ELSE {name}
 AnyPerPath(G, r) == \E t \in Rng(r.c15.freq) : DevIcCountedPerPath(G, r, t)
 Fails(r) ==
@@ -53,6 +61,7 @@ Fails(r) ==
      \cup Cl(\A t \in Rng(o.freq) : WeightOK(G, r, t) \/ DevIcCountedPerPath(G, r, t), "CountedOnce")
      \cup Cl(MonotoneOK(G, o), "Monotone")
      \cup Cl(ProbOK(G, r, o) \/ (AnyPerPath(G, r) /\ DevProbAbove1(G, r, o)), "Probability")
+     \cup Cl(\A t \in Rng(o.load) : LoadOK(G, r, t), "LoadWeightsFile")
 Devs(r) ==
   IF "timeout" \in DOMAIN r THEN {} ELSE
   LET G == GraphOf(r) IN
